@@ -1,6 +1,7 @@
 //! cbv — model-checking harness for aws/clock-bound. See /verif/DESIGN.md.
 mod common;
 mod gridmc;
+mod histmc;
 mod seqmc;
 
 use common::report::{machinery_failure, Ctx, Tier};
@@ -56,6 +57,7 @@ fn main() {
     };
     let code = match prop.as_str() {
         "C05" | "C06" | "C14" => gridmc::clientgrid::run(&ctx),
+        "C07" => gridmc::boundgrid::run(&ctx),
         "C02" | "C03" | "C04" | "C11" | "C18" => seqmc::props::run(&ctx),
         _ => machinery_failure(&format!("no engine for property {prop}")),
     };
